@@ -172,6 +172,34 @@ def history_family(v, wd, n, seed, replay_case=None):
             v.violation(f"history {cid} (steps {c.get('_names')}): {name} is false at log line {line - 1 - start} ({e})",
                         {"engine": "history", "guard": name, "case": {k: x for k, x in c.items() if not k.startswith("_")}})
     v.cov["generated_histories"] = len(results)
+    # the same histories, every stream of the store (threads, sessions, tasks), against the composition's monitor in
+    # its strict form: numbering of every stream, opening frames, lineage position, task life cycle on top of the above
+    from .. import suite
+    sev, sowner = [], []
+    for res in results:
+        sev.append({"ev": "reset", "case": res["id"]})
+        sowner.append(res["id"])
+        for o in res["order"]:
+            sev.append(suite.frame_event({"stream_kind": o.get("kind") or "session", "type": o["type"], "stream_id": o["sid"], "seq": o["seq"],
+                                          "run_session_id": o.get("r"), "message_id": o.get("m"), "id": o.get("m"), "job_id": o.get("j"), "status": o.get("st")}))
+            sowner.append(res["id"])
+    p2 = os.path.join(wd, "system.ndjson")
+    write_ndjson(p2, sev)
+    r2, rej2 = tlc.validate_trace("SystemTrace", "SystemTrace_strict.cfg", p2, timeout=900, heap="4g")
+    v.add_tlc(r2, f"SystemTrace (strict): the {len(results)} generated histories, every stream, against the monitor half of System.tla")
+    if rej2 or r2.errors or r2.violated or r2.timed_out:
+        log(r2.out[-3000:])
+        die_tool(f"SystemTrace failed: {rej2 or r2.errors or r2.violated}")
+    for tag, val in r2.prints:
+        if tag == "BAD":
+            for line, name in val[:20]:
+                cid = sowner[line - 1]
+                if suite.GUARD_PROP.get(name) != PROP:
+                    continue        # numbering, lineage and task guards have their own checks (C01, C10, C17) on their own runs
+                c = by_id[cid]
+                v.violation(f"history {cid} (steps {c.get('_names')}): {name} is false at {sev[line - 1]}",
+                            {"engine": "history", "guard": name, "case": {k: x for k, x in c.items() if not k.startswith("_")}})
+            v.cov["system_monitor_flags_other_properties"] = sorted({f"{name}" for line, name in val if suite.GUARD_PROP.get(name) != PROP})
     return len(results)
 
 
